@@ -64,6 +64,7 @@ def critName : Crit → String
   | .err => "err"
   | .mf f => if f.isPhrase then "phrase" else "words"
   | .expr .. => "expr"
+  | .number => "number"
 
 /-- the bloom CMI of a column holding the string values `vs` (`none` = the column does not exist in the block) -/
 def colBloom (vs : Option (List Bytes)) : Option BloomLike :=
@@ -112,6 +113,7 @@ def probe (args : List String) : String :=
   match args with
   | [c, o, ci, t, orig] =>
     match critOf c o ci t orig with
+    | some (_, _, .number) => "crit=number"
     | some (_, ci, cr) => s!"crit={critName cr} {showProbe (cr.probe ci)} neg={bit cr.negate}"
     | none => "bad-op"
   | _ => "bad-op"
@@ -120,6 +122,7 @@ def check (args : List String) : String :=
   match args with
   | [c, o, ci, t, orig, m, u] =>
     match critOf c o ci t orig, listArg? "M" m, listArg? "U" u with
+    | some (_, _, .number), some _, some _ => "crit=number"   -- numeric comparison: kernel suite cmpk, not this model
     | some (star, ci, cr), some m, some u =>
       let p := cr.probe ci
       let recs := recsOf m u
@@ -129,6 +132,7 @@ def check (args : List String) : String :=
         | .expr fopEq val _ _ =>
           if hasStar val then "-"
           else bits (recs.map fun (rv : Bool × Bytes) => (star || rv.1) && exprRaw fopEq ci val (.str rv.2))
+        | .number => "-"
       let pass := match cr with
         | .err => "err"
         | _ => passStr star m u p cr.negate
